@@ -18,6 +18,7 @@ import (
 	"os"
 	"reflect"
 	"runtime"
+	"runtime/debug"
 	"strconv"
 	"strings"
 	"sync/atomic"
@@ -41,6 +42,7 @@ type c04Case struct {
 	Kind  string `json:"kind,omitempty"` // oracle: which library parser
 	Dump  bool   `json:"dump,omitempty"` // unmarshal: also print the decoded value (calibration witnesses only)
 	Opts  *opts  `json:"o,omitempty"`    // decoder options other than the defaults (unmarshal, service, client, jservice)
+	Stack int    `json:"stack,omitempty"` // MB: a smaller goroutine stack limit for this case (value graphs: unbounded recursion is found at once)
 }
 
 // opts: the decoder's public knobs (io.Decoder fields / core.With*Type codec options), as their enum values
@@ -620,6 +622,10 @@ func runCase(line []byte, out *json.Encoder) error {
 	}
 	data = exactCopy(data)
 	warm(&c)
+	if c.Stack > 0 {
+		debug.SetMaxStack(c.Stack << 20)
+		defer debug.SetMaxStack(1000000000)
+	}
 	var m0, m1 runtime.MemStats
 	runtime.ReadMemStats(&m0)
 	atomic.StoreInt64(&wdID, int64(c.ID))
